@@ -6,6 +6,6 @@ from hgv.worker import Worker
 d=json.load(open(sys.argv[1]))
 print(json.dumps(d["case"])); print(d.get("violation"))
 if len(sys.argv)>2:
-    w=Worker(); r=w.request({"op":"run","prog":d["case"]}); w.close()
+    prog=d["case"].get("prog", d["case"]); w=Worker(); r=w.request({"op":"run","prog":prog}); w.close()
     print(r.get("graph")); print(r.get("error"))
     for e in r["trace"]: print(e)
